@@ -1,6 +1,6 @@
 (* C04 — the current action is scoped to its block and always restored on exit. *)
 From Coq Require Import List.
-Require Import Eliot.Base.Level Eliot.Model.Core Eliot.Proofs.CoreBasics.
+Require Import Eliot.Base.Level Eliot.Model.Core Eliot.Model.Prog Eliot.Proofs.CoreBasics Eliot.Proofs.CtxFrame Eliot.Proofs.CtxRestore.
 Import ListNotations.
 
 (* setting the context variable in one execution context is visible there ... *)
@@ -12,3 +12,55 @@ Print Assumptions C04_set_visible.
 Theorem C04_set_local : forall s c c' v, c <> c' -> cur (set_ctx s c v) c' = cur s c'.
 Proof. exact cur_set_ctx_other. Qed.
 Print Assumptions C04_set_local.
+
+(* `with a:` restores: whatever the block does short of overwriting a's saved token *)
+Theorem C04_enter_exit_restore :
+  forall cfg c h a s mid exc, alookup h (heap s) = Some a ->
+    tokof (run cfg mid (api cfg c s (OEnter h))) h = tokof (api cfg c s (OEnter h)) h ->
+    cur (api cfg c (run cfg mid (api cfg c s (OEnter h))) (OExit h exc)) c = cur s c.
+Proof. exact enter_exit_restore. Qed.
+Print Assumptions C04_enter_exit_restore.
+
+(* `with a.context():` / `a.run(f)` restore: whatever the block does that leaves the token stack balanced *)
+Theorem C04_ctxenter_ctxexit_restore :
+  forall cfg c h s mid,
+    tstack (run cfg mid (api cfg c s (OCtxEnter h))) c = tstack (api cfg c s (OCtxEnter h)) c ->
+    cur (api cfg c (run cfg mid (api cfg c s (OCtxEnter h))) OCtxExit) c = cur s c /\
+    tstack (api cfg c (run cfg mid (api cfg c s (OCtxEnter h))) OCtxExit) c = tstack s c.
+Proof. exact ctxenter_ctxexit_restore. Qed.
+Print Assumptions C04_ctxenter_ctxexit_restore.
+
+(* every well-formed program, from every state, whatever is raised inside, gives the current action of its context back *)
+Theorem C04_restore :
+  forall cfg p c s, wf_prog c p -> cur (run cfg (fst (compile c p)) s) c = cur s c.
+Proof. exact CtxRestore.C04_restore. Qed.
+Print Assumptions C04_restore.
+
+Theorem C04_restore_tokens :
+  forall cfg p c s, wf_prog c p -> tstack (run cfg (fst (compile c p)) s) c = tstack s c.
+Proof. exact CtxRestore.C04_restore_tokens. Qed.
+Print Assumptions C04_restore_tokens.
+
+(* the probe after each statement records what was current before the statement *)
+Theorem C04_probe_after_stmt :
+  forall cfg st rest c s, wf_prog c (st :: rest) ->
+    (exists tl, fst (compile c (st :: rest)) = fst (compile_stmt c st) ++ probe c ++ tl) /\
+    probes (run cfg (fst (compile_stmt c st) ++ probe c) s) =
+      probes (run cfg (fst (compile_stmt c st)) s) ++ [(c, cur s c)].
+Proof. exact CtxRestore.C04_probe_after_stmt. Qed.
+Print Assumptions C04_probe_after_stmt.
+
+(* the first observation inside an action block is that action *)
+Theorem C04_inside :
+  forall cfg c s h style task ty fs sers succ body,
+    style <> WithBlock \/ task = true \/ parent_live s c ->
+    exists rest, probes (run cfg (fst (compile c [SAct h style task ty fs sers succ body])) s)
+                 = probes s ++ (c, Some h) :: rest.
+Proof. exact CtxRestore.C04_inside. Qed.
+Print Assumptions C04_inside.
+
+(* the stated exclusion: re-entering the same `with action:` inside its own block does not restore *)
+Theorem C04_restore_rewith_refuted :
+  exists cfg p c s, cur (run cfg (fst (compile c p)) s) c <> cur s c.
+Proof. exact CtxRestoreExamples.C04_restore_rewith_refuted. Qed.
+Print Assumptions C04_restore_rewith_refuted.
